@@ -11,6 +11,7 @@
   first record.
 -/
 import Mhub2.Votes
+import Mhub2.Step
 import Mhub2.Generated.Facts
 import Lemmas.Votes
 namespace Mhub2.C03
@@ -114,6 +115,16 @@ theorem hub_tally_refines_pure {h h' : Hub} {mf : Bool} {chain : String}
 theorem hub_tally_never_panics {h : Hub} (mf : Bool) (chain : String) (hr : Reach (h.chain chain)) :
     ∃ h', h.tally mf chain = .ok h' :=
   hub_tally_total mf chain hr.inv
+
+/-- A change of the validator set — validators bonding, leaving, being removed and created again under the same operator
+    address, changing power — writes no bridge state at all: every chain's vote records, the per-validator last voted nonces
+    and the observed nonce are what they were.  (So the statements above, which hold for arbitrary power functions, cover
+    histories with staking changes; the real staking hooks are empty: `fact_staking_hooks`.) -/
+theorem staking_change_keeps_vote_state (h : Hub) (vs : List Validator) (c : String) :
+    (apply h (.staking vs)).1.chain c = h.chain c := rfl
+
+theorem fact_staking_hooks : Generated.staking_hooks =
+    "AfterDelegationModified{} | AfterValidatorBeginUnbonding{} | AfterValidatorBonded{} | AfterValidatorCreated{} | AfterValidatorRemoved{} | BeforeDelegationCreated{} | BeforeDelegationRemoved{} | BeforeDelegationSharesModified{} | BeforeValidatorModified{} | BeforeValidatorSlashed{}" := rfl
 
 /-- Bridge lemmas: the source expressions the model was written from. -/
 theorem fact_tally_gate : Generated.tally_gate =
